@@ -85,6 +85,7 @@ EXC = {
     "SimBadStr": SimBadStr,
     "TimeoutError": TimeoutError,
     "SimTimeout": SimTimeout,
+    "CancelledError": asyncio.CancelledError,
 }
 
 
@@ -1015,6 +1016,7 @@ def make_task_func(world: World, tspec: dict) -> Any:
         async def body(*args: Any, **kw: Any) -> Any:  # type: ignore[misc]
             d, beh = enter(args, kw)
             how = "cancelled"
+            own_exc = False
             try:
                 for us in beh.get("steps", []):
                     if us:
@@ -1024,6 +1026,7 @@ def make_task_func(world: World, tspec: dict) -> Any:
                 out = beh.get("out", ["ret"])
                 if out[0] == "exc":
                     how = "exc:" + out[1]
+                    own_exc = True
                     raise EXC[out[1]](f"boom-{d}")
                 if out[0] == "nores":
                     how = "exc:NoResultError"
@@ -1042,6 +1045,8 @@ def make_task_func(world: World, tspec: dict) -> Any:
                 how = "ret"
                 return retval(d)
             except asyncio.CancelledError:
+                if own_exc:
+                    raise          # the body itself raised CancelledError (it awaited something that had been cancelled): an outcome, not a cancellation
                 how = "cancelled"
                 world.rec("fn_cancelled", d)          # the instant the cancellation reached the function body
                 cu = beh.get("cleanup_us")
